@@ -287,3 +287,19 @@ package iterator
 //@   props C07
 //@   ensures fresh(result) && result.(*compactIterator[T]).inner == iter && result.(*compactIterator[T]).first
 //@   ensures forall a T, b T {result.(*compactIterator[T]).eq(a, b)} :: result.(*compactIterator[T]).eq(a, b) == (a == b)
+
+// ---- Last: ring buffer; r is the ghost residue i % n ----
+
+//@ func Last
+//@   props C07
+//@   requires itInv(iter) && n >= 0
+//@   modifies iter.pos, iter.pulls
+//@   ghostinit r := 0
+//@   loop 0: ghost r := (n > 0 && r + 1 < n) ? r + 1 : 0
+//@   loop 0: invariant itInv(iter) && i == iter.pos - old(iter.pos) && iter.pulls == old(iter.pulls) + i && len(buf) == n && fresh(buf) && off(buf) == 0
+//@   loop 0: invariant n > 0 ==> 0 <= r && r < n && r == i % n && (i < n ==> r == i)
+//@   loop 0: invariant n > 0 ==> (forall t int {buf[t]} :: 0 <= t && t < r ==> buf[t] == iter.seq[old(iter.pos) + i - r + t])
+//@   loop 0: invariant n > 0 && i >= n ==> (forall t int {buf[t]} :: r <= t && t < n ==> buf[t] == iter.seq[old(iter.pos) + i - r - n + t])
+//@   ensures iter.pos == iter.n && iter.pulls == old(iter.pulls) + iter.n - old(iter.pos) + 1
+//@   ensures len(result) == min(n, iter.n - old(iter.pos))
+//@   ensures forall t int {result[t]} :: 0 <= t && t < len(result) ==> result[t] == iter.seq[iter.n - len(result) + t]
